@@ -361,14 +361,23 @@ class C19(Check):
             ctx.violate({"invariant": "no_deadlock", "uses": "+".join(uses)}, {"switches": sched.switches[-6:]})
         if sched.capped:
             ctx.violate({"invariant": "progress_within_cap", "uses": "+".join(uses)}, {"steps": sched.step})
+        sub_spec = spec.get("sub") or {}
+        bypass = sub_spec.get("kind") == "plain" and sub_spec.get("own_new") == "direct"
         for i, t in enumerate(sched.threads):
+            # (label for known finding C19-KF1: the thread used an instance of a PLAIN subclass whose own __new__ never
+            # reaches the lazily bootstrapped parent's)
+            uses_sub = plans[i]["role"] == "sub" or plans[i]["first_use"] == "via_subclass"
+            via = "plain_subclass_bypassing_new" if (bypass and uses_sub) else "-"
             if t.exc is not None and not sched.deadlock and not sched.capped:
                 ctx.violate({"invariant": "no_thread_exception", "first_use": plans[i]["first_use"],
-                             "exc": type(t.exc).__name__},
+                             "exc": type(t.exc).__name__, "via": via},
                             {"thread": i, "msg": strip_addr(str(t.exc))[:300], "plan": plans[i]})
             elif t.exc is None and t.result != ref_out[i]:
+                field = _first_diff_key(t.result, ref_out[i])
+                if via != "-" and not (field.startswith("subinst") or plans[i]["role"] == "sub"):
+                    via = "-"
                 ctx.violate({"invariant": "thread_result_equals_eager", "first_use": plans[i]["first_use"],
-                             "field": _first_diff_key(t.result, ref_out[i])},
+                             "field": field, "via": via},
                             {"thread": i, "got": _short(t.result), "want": _short(ref_out[i]), "plan": plans[i]})
         if not sched.deadlock and not sched.capped and not any(t.exc is not None for t in sched.threads):
             # every instance (constructed or copied by a helper) is created through the same user-visible __new__ as
